@@ -166,8 +166,18 @@ def r10c(fb, rep):
            c.fn.rsplit("::", 1)[1] in ("filter", "filter_map", "take", "skip", "step_by", "take_while", "skip_while", "nth", "last")]
     folds = [c for c in b.calls() if c.fn and c.fn.endswith("Iterator::fold")]
     zips = [c for c in b.calls() if c.fn and c.fn.endswith("Iterator::zip")]
+    # ... in declaration order: the lets are built inside-out by one fold over the reversed field list; anything that permutes the
+    # list (sort*, reverse, swap, rotate) changes the order in which the field initialisers (and their calls) run
+    perm = [c for c in b.calls() if any(c.res.endswith(x) or ("::" + x + "::") in c.res or c.res.rsplit("::", 1)[1].startswith(x) for x in
+                                        ("sort", "reverse", "swap", "rotate_left", "rotate_right", "select_nth", "shuffle"))
+            and ("slice::<impl [T]>" in c.res or "Vec::<T" in c.res or "VecDeque" in c.res)]
+    revs = [c for c in b.calls() if c.fn and c.fn.endswith("Iterator::rev")]
     if bad:
         rep.violation(R, "fields-filtered", "the field re-binding drops fields: %s" % bad[0].fn, bad[0].where())
+    elif perm or len(revs) != 1:
+        rep.violation(R, "fields-reordered", "the field re-binding does not keep the declaration order of the record's fields (%s): the initialisers of a literal that is "
+                      "projected directly would run in another order than without optimisation" % ([c.res.rsplit("::", 2)[-1] for c in perm] or "rev() x %d" % len(revs)),
+                      (perm[0] if perm else b).where())
     elif folds and zips:
         rep.ok(R, "row_iter().zip(exprs) ... fold(make_let): no filtering adaptor")
     else:
